@@ -339,3 +339,85 @@ Proof.
   intros W L P. unfold merge_sorted, present. rewrite (proj2 (Nat.ltb_lt t (length g)) L).
   apply (visit_depth0 g W (S t) t ms_init); [lia | exact L | exact P | reflexivity].
 Qed.
+
+(* ---- depths go up by at most one per step ----------------------------------------- *)
+
+Fixpoint steps (l : list ms_entry) : Prop :=
+  match l with
+  | [] => True
+  | e :: l' => match l' with
+               | [] => True
+               | e' :: _ => e_depth e' <= S (e_depth e)
+               end /\ steps l'
+  end.
+
+Definition top_le (k : nat) (st : ms_state) : Prop :=
+  match ms_sched st with [] => True | h :: _ => e_depth h <= k end.
+
+Lemma top_le_mono k k' st : k <= k' -> top_le k st -> top_le k' st.
+Proof. unfold top_le. destruct (ms_sched st); [trivial | lia]. Qed.
+
+Lemma fold_steps g f depth :
+  (forall n d st, n < f -> steps (ms_sched st) -> top_le (S d) st ->
+     steps (ms_sched (ms_visit g f n d st)) /\ top_le d (ms_visit g f n d st)) ->
+  forall plan st,
+  (forall q d, In (q, d) plan -> depth <= d <= S depth /\ (q < f \/ length g <= q)) ->
+  steps (ms_sched st) -> top_le (S depth) st ->
+  steps (ms_sched (fold_left (ms_descend g f) plan st)) /\
+  top_le (S depth) (fold_left (ms_descend g f) plan st).
+Proof.
+  intros IH. induction plan as [|[q d] plan IHp]; intros st Hp S0 T0; cbn [fold_left]; [split; assumption|].
+  destruct (Hp q d (or_introl eq_refl)) as [[D1 D2] Hq].
+  assert (X : steps (ms_sched (ms_descend g f st (q, d))) /\ top_le (S depth) (ms_descend g f st (q, d))).
+  { unfold ms_descend. cbn [fst snd]. destruct (completed st q); cbn [orb]; [split; assumption|].
+    unfold ghost, present. destruct (q <? length g) eqn:P; cbn [negb]; [|split; assumption].
+    apply Nat.ltb_lt in P. destruct Hq as [Hq|Hq]; [|lia].
+    destruct (IH q d st Hq S0 (top_le_mono (S depth) (S d) st ltac:(lia) T0)) as [A B].
+    split; [exact A | apply (top_le_mono d (S depth)); [lia | exact B]]. }
+  destruct X as [S1 T1]. apply IHp; [intros q' d' H; apply Hp; right; exact H | exact S1 | exact T1].
+Qed.
+
+Lemma visit_steps g : wf_dag g = true -> forall f n d st,
+  n < f -> steps (ms_sched st) -> top_le (S d) st ->
+  steps (ms_sched (ms_visit g f n d st)) /\ top_le d (ms_visit g f n d st).
+Proof.
+  intros W. induction f as [|f IH]; intros n d st Lf S0 T0; [lia|].
+  rewrite ms_visit_S. set (lp := left_parent g n). set (plan := visit_plan (parents g n) d).
+  destruct (fold_steps g f d IH plan (claim lp st)) as [S1 T1].
+  - intros q d' H. unfold plan in H. destruct (plan_depths _ _ _ _ H) as [D Hq].
+    split.
+    + split; [exact D|]. unfold visit_plan in H. destruct (parents g n) as [|p rest]; [contradiction|].
+      destruct H as [E|H]; [injection E as _ <-; lia|].
+      apply in_map_iff in H as [x [E _]]. injection E as _ <-. lia.
+    + destruct (wf_parents g n q W Hq) as [L|G]; [left; lia | right; exact G].
+  - rewrite claim_sched. exact S0.
+  - unfold top_le. rewrite claim_sched. exact T0.
+  - set (st2 := fold_left (ms_descend g f) plan (claim lp st)) in *.
+    destruct (pop_node_sched n d lp (is_first_child lp st) st2) as [rv E].
+    unfold top_le. rewrite E. split; [|cbn; lia].
+    cbn [steps]. split; [|exact S1]. unfold top_le in T1. destruct (ms_sched st2); [trivial | exact T1].
+Qed.
+
+Lemma steps_okd l lim : steps l -> match l with [] => True | h :: _ => e_depth h <= lim end ->
+  (fix okd (lim : nat) (ds : list nat) : bool :=
+     match ds with [] => true | x :: ds' => (0 <=? x) && (x <=? lim) && okd (S x) ds' end) lim (map e_depth l) = true.
+Proof.
+  revert lim. induction l as [|e l IH]; intros lim S0 H; [reflexivity|].
+  cbn [map]. cbn [steps] in S0. destruct S0 as [A B].
+  rewrite (proj2 (Nat.leb_le _ _) H). cbn [Nat.leb andb].
+  apply IH; [exact B | destruct l; [trivial | exact A]].
+Qed.
+
+(* the merge-sorted list starts at depth 0 and a step goes up by at most one *)
+Theorem merge_sorted_steps g t : wf_dag g = true -> t < length g ->
+  steps (merge_sorted g (Some t)) /\
+  match merge_sorted g (Some t) with [] => False | h :: _ => e_depth h = 0 end.
+Proof.
+  intros W L. unfold merge_sorted, present. rewrite (proj2 (Nat.ltb_lt t (length g)) L).
+  destruct (visit_steps g W (S t) t 0 ms_init (Nat.lt_succ_diag_r t) I I) as [A B].
+  split; [exact A|]. unfold top_le in B.
+  rewrite ms_visit_S in *.
+  destruct (pop_node_sched t 0 (left_parent g t) (is_first_child (left_parent g t) ms_init)
+     (fold_left (ms_descend g t) (visit_plan (parents g t) 0) (claim (left_parent g t) ms_init))) as [rv E].
+  rewrite E. reflexivity.
+Qed.
